@@ -15,6 +15,7 @@ import MocVerif.Lemmas.Morpho
 import MocVerif.Lemmas.ValidOps
 import MocVerif.Model.Params
 import MocVerif.Lemmas.Graph
+import MocVerif.Lemmas.FillHoles
 
 namespace Moc.C17
 
@@ -128,6 +129,37 @@ theorem space_split_cover (g : Adj) (s : List Nat) (x : Nat) :
 theorem space_split_separated (g : Adj) (s : List Nat) :
     (splitAll g s).Pairwise fun a b => (∀ x ∈ a, x ∉ b) ∧ ∀ x ∈ a, ∀ n ∈ nbrs g x, n ∉ b :=
   (space_split_correct g s).separated
+
+/-! ### Hole filling (`fill_holes(except_n_largest)`) -/
+
+/-- **Hole filling adds exactly the components of the complement other than the `1 + n` largest**: a cell is
+    in the result iff it is in the set or in one of the components that follow the first `1 + n` ones in the
+    list of the components of the complement sorted by decreasing size. -/
+theorem fill_holes_spec (g : Adj) (univ s : List Nat) (n x : Nat) :
+    x ∈ fillHoles g univ s n ↔ x ∈ s ∨ ∃ comp ∈ (holesSorted g univ s).drop (1 + n), x ∈ comp :=
+  mem_fillHoles g univ s n x
+
+/-- The sorted list is a rearrangement of the components of the complement (same components, same number),
+    and every component left alone is at least as large as every component that is filled. -/
+theorem fill_holes_largest_kept (g : Adj) (univ s : List Nat) (n : Nat) :
+    (∀ c, c ∈ holesSorted g univ s ↔ c ∈ splitAll g (univ.filter fun y => !s.contains y)) ∧
+    (holesSorted g univ s).length = (splitAll g (univ.filter fun y => !s.contains y)).length ∧
+    ∀ a ∈ (holesSorted g univ s).take (1 + n), ∀ b ∈ (holesSorted g univ s).drop (1 + n), b.length ≤ a.length :=
+  ⟨fun c => mem_sortBySize c _, length_sortBySize _, desc_take_drop _ (1 + n) (desc_sortBySize _)⟩
+
+/-- The result is a superset of the set and only adds cells of its complement, by whole components. -/
+theorem fill_holes_superset (g : Adj) (univ s : List Nat) (n : Nat) :
+    (∀ x ∈ s, x ∈ fillHoles g univ s n) ∧
+    (∀ x ∈ fillHoles g univ s n, x ∈ s ∨ (x ∈ univ ∧ x ∉ s)) := by
+  refine ⟨fun x hx => (mem_fillHoles g univ s n x).2 (.inl hx), ?_⟩
+  intro x hx
+  rcases (mem_fillHoles g univ s n x).1 hx with h | ⟨comp, hc, hxc⟩
+  · exact .inl h
+  · right
+    have hc' : comp ∈ splitAll g (univ.filter fun y => !s.contains y) :=
+      (mem_sortBySize comp _).1 (List.mem_of_mem_drop hc)
+    have := (space_split_cover g (univ.filter fun y => !s.contains y) x).2 ⟨comp, hc', hxc⟩
+    simpa using this
 
 /-! Non-vacuity: a path 0–1–2 and an isolated cell 5. -/
 example : splitAll [(0, [1]), (1, [0, 2]), (2, [1]), (5, [])] [0, 1, 2, 5] = [[0, 1, 2], [5]] := by decide
